@@ -402,6 +402,13 @@ def summarise(run, dom, body, where='', collect=False, parallel=None):
             get = lambda st1, env1, nm=desc[1]: env1[nm].term
         v = merged(get)
         post.assume(z3.ForAll([i_], z3.Implies(rng, itf(i_ + 1) == gen(v)), patterns=[itf(i_ + 1)]))
+        cf = _closed_form(v, itf, ik, body_consts)
+        if cf is not None:
+            # iteration of a pure function g: it(i) = iter_g(init, i, invariant args)   (rule: induction on i)
+            g, others = cf
+            it_g = F('iter_' + g.name(), init.sort(), Int, *[o.sort() for o in others], init.sort())
+            post.assume(z3.ForAll([i_], z3.Implies(i_ >= 0, itf(i_) == it_g(init, i_, *others)), patterns=[itf(i_)]))
+            run.note('rule:iterated-function ' + g.name())
         final = itf(n)
         if desc[0] == 'field':
             _, loc, f, v0 = desc
@@ -506,6 +513,39 @@ def _collect(run, dom, normal, nguards, gen, ik, n, merged):
         run.st.assume(z3.ForAll([j], z3.Implies(z3.And(j >= 0, j < n), T.rat(r, j) == v.real()), patterns=[T.rat(r, j)]))
         return SeqV('R', r, True)
     return run.st.alloc(SymListO(n, z3.Lambda([j], box(run, v)), ekind_of(run, v)))
+
+
+def _closed_form(v, itf, ik, body_consts):
+    """v == g(itf(ik), c1..ck) with g uninterpreted and the c's independent of the iteration -> (g, [c..])."""
+    if not (z3.is_app(v) and v.decl().kind() == z3.Z3_OP_UNINTERPRETED and v.num_args() >= 1):
+        return None
+    if not z3.eq(v.arg(0), itf(ik)):
+        return None
+    others = [v.arg(k) for k in range(1, v.num_args())]
+    banned = set(c.get_id() for c in body_consts) | {ik.get_id()}
+    for o in others:
+        if _mentions(o, banned, itf):
+            return None
+    return v.decl(), others
+
+
+def _mentions(t, banned_ids, itf):
+    todo = [t]
+    seen = set()
+    while todo:
+        e = todo.pop()
+        if e.get_id() in seen:
+            continue
+        seen.add(e.get_id())
+        if e.get_id() in banned_ids:
+            return True
+        if z3.is_app(e):
+            if e.decl().name().startswith('it_'):
+                return True
+            todo.extend(e.children())
+        elif z3.is_quantifier(e):
+            todo.append(e.body())
+    return False
 
 
 def _with_term(v, term):
